@@ -13,6 +13,7 @@ import (
 	"sync/atomic"
 	"time"
 
+	"github.com/bradenaw/juniper/chans"
 	"github.com/bradenaw/juniper/container/tree"
 	"github.com/bradenaw/juniper/iterator"
 	"github.com/bradenaw/juniper/parallel"
@@ -25,6 +26,7 @@ var extraScale = map[string]func(c *Case, res map[string]any, fail func(string, 
 	"mapstream-ferr-storm": scaleMapStreamFerrStorm,
 	"pipe-trysend-storm":   scalePipeTrySendStorm,
 	"pipe-idle-next":       scalePipeIdleNext,
+	"chans-merge-iface":    scaleChansMergeIface,
 }
 
 // ---- C03: keys and values that were deleted or moved elsewhere can be garbage collected.
@@ -436,4 +438,61 @@ func scalePipeIdleNext(c *Case, res map[string]any, fail func(string, ...any)) {
 	}
 	sender.Close(nil)
 	recv.Close()
+}
+
+// ---- C12: chans.Merge / Replicate forward every value of an interface-typed channel, nil values included, on all
+// code paths (1, 2, 3 inputs and the reflect.Select path for 0 or >= 4 inputs).
+
+func scaleChansMergeIface(c *Case, res map[string]any, fail func(string, ...any)) {
+	n := num(c.Cfg["n"])
+	errA := errors.New("a")
+	vals := []error{nil, errA, nil}
+	ins := make([]<-chan error, n)
+	for i := range ins {
+		ch := make(chan error, len(vals))
+		for _, v := range vals {
+			ch <- v
+		}
+		close(ch)
+		ins[i] = ch
+	}
+	out := make(chan error, n*len(vals)+1)
+	chans.Merge(out, ins...)
+	nils, as := 0, 0
+	for len(out) > 0 {
+		if v := <-out; v == nil {
+			nils++
+		} else if v == errA {
+			as++
+		} else {
+			fail("Merge forwarded a value that was never sent: %v", v)
+		}
+	}
+	if nils != 2*n || as != n {
+		fail("Merge over %d channels of error values [nil, a, nil] forwarded %d nil values and %d times a (want %d and %d)", n, nils, as, 2*n, n)
+	}
+	// Replicate
+	src := make(chan error, len(vals))
+	for _, v := range vals {
+		src <- v
+	}
+	close(src)
+	dsts := make([]chan error, 2)
+	dd := make([]chan<- error, 2)
+	for i := range dsts {
+		dsts[i] = make(chan error, len(vals))
+		dd[i] = dsts[i]
+	}
+	chans.Replicate(src, dd...)
+	for i, d := range dsts {
+		if len(d) != len(vals) {
+			fail("Replicate delivered %d of %d values to destination %d", len(d), len(vals), i)
+			continue
+		}
+		for j, want := range vals {
+			if got := <-d; got != want {
+				fail("Replicate: destination %d value %d is %v, want %v", i, j, got, want)
+			}
+		}
+	}
 }
